@@ -67,6 +67,12 @@ class Stub:
     def __repr__(self):
         return "<stub %s>" % self._name
 
+    def __eq__(self, other):
+        return isinstance(other, Stub) and other._name == self._name
+
+    def __hash__(self):
+        return hash(self._name)
+
 
 def namespace():
     ns = {k: getattr(typing, k) for k in ("Optional", "List", "Literal", "Union", "Tuple", "Dict", "Callable", "Any", "AnyStr")}
